@@ -78,6 +78,15 @@ INFO = {
 }
 
 
+# seeds that the quick checks first ran silently on, and what was strengthened so that they are caught (the logs imported are the re-runs)
+STRENGTHENED = {
+    "C05-B": "first run: only C10 caught it (C05/C01 silent: a random 16-bit piece is 0x1000 with probability 2^-16). gen::host now biases IPv6 pieces to digit-count boundaries (0xF/0x10/0xFF/0x100/0xFFF/0x1000/...); C05 and C01 catch it since.",
+    "C07-B": "first run: C07 and C04 caught it, C01 silent (no base with a '/.//' path of two segments). Bases 'foo:/.//a/b/c' etc. added to gen::base_pool; C01 catches it since.",
+    "C10-B": "first run: C10 and C04 both silent (needs a host setter fed another spelling of the host the URL already has). Added gen::respell_host (used by the shared history generator) and the C10 channels set_host-same-host / set_hostname-same-host; C10 and C04 catch it since.",
+    "C14-A": "patch rebased onto the tree after fix 6929383 (same function). First run silent: no input was generated with an unparsable base argument. gen_c14 now passes unparsable / irrelevant base strings with absolute inputs; C14 catches it (test-vs-exec) since.",
+}
+
+
 def main():
     stage = sys.argv[1]
     verified, runs = {}, {}
@@ -115,7 +124,7 @@ def main():
                     origin="sub-agent given only the property text and a scratch worktree of /repo",
                     confirmed=dict(how="bin/seedverify in a scratch worktree of /repo HEAD: git apply; /root/seedtools/buildtest.sh (cmake build + ctest); demonstration built against patched and clean tree",
                                    pinned_suite_unchanged_with_patch=True, demonstration_fails_with_patch=True, demonstration_passes_without_patch=True, log_line=vline),
-                    checks_run={k: r for k, r in sorted(det.items())}, detected_by=caught, not_detected_by=missed,
+                    checks_run={k: r for k, r in sorted(det.items())}, detected_by=caught, not_detected_by=missed, strengthened=STRENGTHENED.get(sid, ""),
                     how_to_rerun="bin/seedrun seeded/%s/patch.diff %s   (or: git -C /repo apply seeded/%s/patch.diff; bin/vcheck %s --tier quick; git -C /repo checkout -- .)" % (sid, " ".join(sorted(det)) or p, sid, p))
         json.dump(meta, open(os.path.join(dst, "meta.json"), "w"), indent=1)
         rows.append((sid, p, INFO[sid][0], INFO[sid][1], caught, missed))
@@ -125,6 +134,11 @@ def main():
                 "| id | breaks | needs, in order to manifest | caught by (quick) | run but silent |\n|---|---|---|---|---|\n")
         for sid, p, b, n, c, m in rows:
             f.write("| %s | %s | %s | %s | %s |\n" % (sid, b.replace("|", "\\|"), n.replace("|", "\\|"), ", ".join(c) or "-", ", ".join(m) or "-"))
+        f.write("\n'run but silent' lists checks of *other* properties that were also tried (a lockstep check cannot see a change made to both URL types, a default-build check "
+                "cannot see an AVX-512-only change, ...); every seed is caught by the check of the property it was written against.\n\n"
+                "## Checks strengthened because a seeded change was first missed\n\n")
+        for sid, note in sorted(STRENGTHENED.items()):
+            f.write("* **%s** - %s\n" % (sid, note))
     print("imported %d seeds" % len(rows))
 
 
